@@ -121,12 +121,13 @@ PROPS = {
     "C02": dict(
         harnesses=[
             dict(run="pkg/backend/tso.VerifC02TSO", quick=dict(preempt=2, dealers=2), thorough=dict(preempt=3, dealers=2), covers=["done"], no_native=False),
+            dict(run="pkg/backend/tso.VerifC02TSO", name="C02_leaderstart", quick=dict(preempt=2, dealers=2, leaderstart=1), thorough=dict(preempt=3, dealers=3, leaderstart=1), covers=["counter-moved-forward", "done"]),
             dict(run=B + "VerifC02Header", quick=dict(ops=1, keys=1, val9=0), thorough=dict(ops=2, keys=2, val9=0), covers=["get-kv", "list-sees-unreported-write", "done"]),
             dict(run=B + "VerifC01Race", name="C02_Race", quick=dict(ops=1, keys=1, val9=0, preempt=1), thorough=dict(ops=1, keys=2, val9=0, preempt=1), covers=["both-succeed", "done"]),
             dict(run="pkg/zzc15.VerifC15Gate", name="C02_gate", quick=dict(preempt=2), thorough=dict(preempt=3), covers=["client-served-by-new-leader", "client-turned-away", "done"], no_native=True),
         ],
         assumptions=["C02_gate (a write arriving during a leader change) is decided over the model of client-go's elector and is not replayed natively"],
-        bounds=dict(quick="revision generator: 2 concurrent Deal + 1 Commit, all interleavings of its atomic operations with <= 2 preemptions, symbolic start value; header >= data on Get/List/limited List issued while a stored write is not yet reported readable (1-write history, read revision symbolic); uniqueness / real-time order / per-key monotonicity on the 2-client harness of C01; a write arriving at any moment of a leader change (<= 2 delays) is stamped above every revision the old leader stored",
+        bounds=dict(quick="revision generator: 2 concurrent Deal + 1 Commit, all interleavings of its atomic operations with <= 2 preemptions, symbolic start value — also right after the counter was moved to an arbitrary revision (a node that starts leading); header >= data on Get/List/limited List issued while a stored write is not yet reported readable (1-write history, read revision symbolic); uniqueness / real-time order / per-key monotonicity on the 2-client harness of C01; a write arriving at any moment of a leader change (<= 2 delays) is stamped above every revision the old leader stored",
                     thorough="3 scheduling deviations on the generator; 2-write histories over 2 keys for the header clause; the two concurrent clients over 2 keys (1 deviation)"),
         outside="more than 2 concurrent dealers; Commit(r) with r above the dealt counter racing Deal other than through the leader-change harness",
     ),
